@@ -159,6 +159,48 @@ def run_header(case: dict) -> list[tuple[str, str]]:
     return fails
 
 
+def nobindings_cases() -> list[dict]:
+    return [{"part": "nobindings", "ns": ns, "delimited": dl, "size": n, "bind": bind}
+            for ns in (True, False) for dl in (True, False) for n in (0, 1, 3)
+            for bind in ("none", "rdflib")]
+
+
+def run_nobindings(case: dict) -> list[tuple[str, str]]:
+    """Graph.serialize() of an rdflib Graph that has no namespace bound at all (or the usual
+    defaults): the header's version follows the option, not what the graph happens to hold."""
+    import rdflib  # noqa: PLC0415
+    from pyjelly.parse.ioutils import get_options_and_frames  # noqa: PLC0415
+
+    g = rdflib.Graph(bind_namespaces=case["bind"])
+    for i in range(case["size"]):
+        g.add((rdflib.URIRef(f"http://a/s{i}"), rdflib.URIRef("http://a/p"), rdflib.Literal(i)))
+    opts = DR.make_options("triple", (8, 2, 2), 250, case["delimited"], generalized=False,
+                           rdf_star=False, ns=case["ns"])
+    try:
+        data = g.serialize(format="jelly", options=opts, encoding="utf-8")
+    except Exception as e:  # noqa: BLE001
+        return [("write-refused", f"{type(e).__name__}: {e}")] if case["size"] else []
+    if not data:
+        return []
+    frames = jwire.read_delimited(data) if case["delimited"] else jwire.read_single(data)
+    w = frames[0]["rows"][0]["v"]
+    fails = []
+    want = 2 if case["ns"] else 1
+    if w["version"] != want:
+        fails.append(("wire-field", f"header declares version {w['version']}, the options ask "
+                                    f"for namespace_declarations={case['ns']}"))
+    try:
+        popts, fr = get_options_and_frames(io.BytesIO(data))
+        list(fr)
+        if popts.params.namespace_declarations != case["ns"] or popts.params.version != want:
+            fails.append(("reader-field", f"reader is told namespace_declarations="
+                                          f"{popts.params.namespace_declarations} version="
+                                          f"{popts.params.version}"))
+    except Exception as e:  # noqa: BLE001
+        fails.append(("read-refused", f"{type(e).__name__}: {e}"))
+    return fails
+
+
 def run_flowtype(case: dict) -> list[tuple[str, str]]:
     from pyjelly.parse.ioutils import get_options_and_frames  # noqa: PLC0415
     from pyjelly.serialize import flows  # noqa: PLC0415
@@ -386,6 +428,12 @@ def shard(job) -> dict:
                         acc.violation({"part": "header", "fail": kind}, f"{msg} case={c}", c)
         if pts:
             acc.sample({"part": "header", "example": list(pts[0])}, cap=1)
+    elif job[0] == "nobindings":
+        for c in nobindings_cases():
+            acc.evals += 1
+            acc.nontrivial += 1
+            for kind, msg in run_nobindings(c):
+                acc.violation({"part": "nobindings", "fail": kind}, f"{msg} case={c}", c)
     elif job[0] == "flowtype":
         # an explicit flow object with a logical type of its own next to options.logical_type:
         # whatever the writer makes of the two, it must refuse or write an allowed pair, and the
@@ -442,6 +490,7 @@ def run(ctx) -> None:
             jobs.append(("header", api, lo, hi, names))
     jobs.append(("derived",))
     jobs.append(("flowtype",))
+    jobs.append(("nobindings",))
     pc = parse_cases()
     jobs += [("parse", pc[i::8]) for i in range(8)]
     merged = pool.merge(pool.pmap(shard, jobs))
@@ -471,6 +520,8 @@ def replay(case: dict) -> list:
     DR.ensure_rdflib_plugin()
     if case.get("part") == "header":
         return [m for _, m in run_header(case)]
+    if case.get("part") == "nobindings":
+        return [m for _, m in run_nobindings(case)]
     if case.get("part") == "flowtype":
         return [m for _, m in run_flowtype(case)]
     return [m for _, m in run_parse_case(case)]
